@@ -5,7 +5,7 @@ set -u
 patch="$(realpath "$1")"; shift
 if [ -n "$(git -C /repo status --porcelain --untracked-files=no)" ]; then echo "/repo not clean" >&2; exit 3; fi
 git -C /repo apply "$patch" || { echo "patch does not apply" >&2; exit 3; }
-"$@"; rc=$?
+VERIF_EVIDENCE_DIR=/verif/.build/evidence-seeded "$@"; rc=$?
 git -C /repo checkout -- . 
 git -C /repo clean -fdq -- . >/dev/null 2>&1 || true
 exit $rc
